@@ -988,13 +988,13 @@ def stream_ext_other(r: Run, n, with_cirq):
 def run_all(r: Run, proved):
     ck = r.ck
     thorough = ck.tier == 'thorough'
-    stream_lib(r, 1500 if thorough else 150)
-    stream_expr(r, 12000 if thorough else 1000)
+    stream_lib(r, 1500 if thorough else 120)
+    stream_expr(r, 12000 if thorough else 700)
     stream_known(r, 200 if thorough else 16)
-    stream_prog(r, 30000 if thorough else 1500)
-    stream_malformed(r, 6000 if thorough else 400)
+    stream_prog(r, 30000 if thorough else 1000)
+    stream_malformed(r, 6000 if thorough else 300)
     lex_texts = [unesc(l[7:]) for l in r.requests if l.startswith('decode ')]
-    stream_lex(r, lex_texts[:20000 if thorough else 1000])
+    stream_lex(r, lex_texts[:20000 if thorough else 700])
     stream_ext(r, 600 if thorough else 40)
     stream_ext_other(r, 200 if thorough else 12, with_cirq=thorough)
     r.flush()
